@@ -47,6 +47,7 @@ Inductive hresp := HNotAllowed | HResp (status : N) | HRaise.
 
 Inductive effect :=
 | EBackend (login pw : pystr)            (* the back-end's _login was called with exactly these *)
+| EHomeRecheck (user : pystr) (found : bool) (* second discover("/user/") under the w lock (a read) *)
 | EHome (user : pystr) (created : bool)  (* create_collection("/user/") attempted under the w lock *)
 | EDispatch (m bp path user : pystr).    (* do_<m>(environ, bp, path, user) was called *)
 
@@ -83,7 +84,8 @@ Section Gate.
        decode_request(b64decode(payload)); None = binascii.Error / LookupError *)
   Variable backend : pystr -> pystr -> option pystr.            (* AOther: _login; None = raises *)
   Variable handler : pystr -> pystr -> pystr -> pystr -> hresp. (* do_<m>(bp, path, user) *)
-  Variable home_exists : pystr -> bool.                         (* discover("/user/") yields something *)
+  Variable home_exists : pystr -> bool.                         (* discover("/user/") yields something (under the r lock) *)
+  Variable home_exists_w : pystr -> bool.                       (* the same look-up repeated under the w lock, just before creating *)
   Variable rights_w : pystr -> bool.                            (* "W" in rights("/user/") *)
   Variable create_fails : pystr -> bool.                        (* create_collection raises ValueError *)
 
@@ -147,7 +149,9 @@ Section Gate.
       if nonempty user1 then
         if home_exists user1 then (user1, [])
         else if rights_w user1
-             then (if create_fails user1 then ([], [EHome user1 false]) else (user1, [EHome user1 true]))
+             then (if home_exists_w user1 then (user1, [EHomeRecheck user1 true])     (* created meanwhile: nothing to do *)
+                   else if create_fails user1 then ([], [EHomeRecheck user1 false; EHome user1 false])
+                        else (user1, [EHomeRecheck user1 false; EHome user1 true]))
              else (user1, [])
       else (user1, []) in
     let na := if negb (nonempty user2) && negb ext then FUnauthorized else FForbidden in
